@@ -63,6 +63,8 @@ func init() {
 		"(*reflect.MapIter).Next":         ext۰reflect۰MapIter۰Next,
 		"(*reflect.MapIter).Key":          ext۰reflect۰MapIter۰Key,
 		"(*reflect.MapIter).Value":        ext۰reflect۰MapIter۰Value,
+		"(reflect.Value).SetIterKey":      ext۰reflect۰Value۰SetIterKey,
+		"(reflect.Value).SetIterValue":    ext۰reflect۰Value۰SetIterValue,
 		"(reflect.Value).NumField":        ext۰reflect۰Value۰NumField,
 		"(reflect.Value).NumMethod":       ext۰reflect۰Value۰NumMethod,
 		"(reflect.Value).MethodByName":    ext۰reflect۰Value۰MethodByName,
